@@ -10,7 +10,6 @@ import (
 	"strings"
 
 	"golang.org/x/tools/go/ssa"
-	"golang.org/x/tools/go/types/typeutil"
 
 	"verif/sa/internal/core"
 	"verif/sa/internal/flow"
@@ -20,6 +19,15 @@ func init() { Registry["C19"] = Check{Run: checkC19} }
 
 // stdoutVar reports whether e denotes the variable os.Stdout.
 func isOsVar(info *types.Info, e ast.Expr, name string) bool {
+	// a seam variable initialised with the os variable (var stdout io.Writer = os.Stdout)
+	if id, ok := ast.Unparen(e).(*ast.Ident); ok {
+		if v, ok := info.Uses[id].(*types.Var); ok {
+			if t, ok := flow.SeamTarget(v).(*types.Var); ok {
+				return t.Pkg() != nil && t.Pkg().Path() == "os" && t.Name() == name
+			}
+		}
+		return false
+	}
 	sel, ok := ast.Unparen(e).(*ast.SelectorExpr)
 	if !ok {
 		return false
@@ -50,7 +58,7 @@ func stdoutWrites(u flow.FuncUnit, lits bool) []*ast.CallExpr {
 		if !ok {
 			return true
 		}
-		if fn, ok := typeutil.Callee(info, call).(*types.Func); ok && fn.Pkg() != nil && fn.Pkg().Path() == "fmt" {
+		if fn, ok := flow.Callee(info, call).(*types.Func); ok && fn.Pkg() != nil && fn.Pkg().Path() == "fmt" {
 			switch fn.Name() {
 			case "Print", "Printf", "Println":
 				out = append(out, call)
@@ -80,7 +88,7 @@ func stdoutWrites(u flow.FuncUnit, lits bool) []*ast.CallExpr {
 }
 
 func exitCodeNonZero(info *types.Info, call *ast.CallExpr) bool {
-	if fn, ok := typeutil.Callee(info, call).(*types.Func); ok && fn.Pkg() != nil && fn.Pkg().Path() == "os" && fn.Name() == "Exit" {
+	if fn, ok := flow.Callee(info, call).(*types.Func); ok && fn.Pkg() != nil && fn.Pkg().Path() == "os" && fn.Name() == "Exit" {
 		if len(call.Args) == 1 {
 			if tv, ok := info.Types[call.Args[0]]; ok && tv.Value != nil {
 				if v, ok := constant.Int64Val(tv.Value); ok {
@@ -107,7 +115,7 @@ func modeVar(u flow.FuncUnit) (*types.Var, ast.Node) {
 		if !ok || len(call.Args) != 1 {
 			return true
 		}
-		fn, ok := typeutil.Callee(info, call).(*types.Func)
+		fn, ok := flow.Callee(info, call).(*types.Func)
 		if !ok || fn.Name() != "String" || fn.Pkg() == nil || fn.Pkg().Path() != "github.com/urfave/cli/v2" {
 			return true
 		}
@@ -147,7 +155,7 @@ func commandFlagLits(c cliCommand) []*ast.CompositeLit {
 					out = append(out, x)
 				}
 			case *ast.CallExpr:
-				if fn, _ := typeutil.Callee(info, x).(*types.Func); fn != nil && inRepoObj(fn) && !seenFn[fn] && depth < 3 {
+				if fn, _ := flow.Callee(info, x).(*types.Func); fn != nil && inRepoObj(fn) && !seenFn[fn] && depth < 3 {
 					seenFn[fn] = true
 					for _, f := range c.Pkg.Syntax {
 						for _, d := range f.Decls {
@@ -739,7 +747,7 @@ func checkLogSinks(p *core.Program, r *core.Report, ix *funcIndex, mainUnit flow
 					}
 				}
 				if call, ok := n.(*ast.CallExpr); ok && depth < 4 {
-					if fn, _ := typeutil.Callee(info, call).(*types.Func); fn != nil && inRepoObj(fn) && !seenFn[fn.Origin()] {
+					if fn, _ := flow.Callee(info, call).(*types.Func); fn != nil && inRepoObj(fn) && !seenFn[fn.Origin()] {
 						seenFn[fn.Origin()] = true
 						if u, ok := ix.decls[fn.Origin()]; ok {
 							scan(u.Node, u.Pkg.TypesInfo, depth+1)
@@ -811,7 +819,7 @@ func checkLogSinks(p *core.Program, r *core.Report, ix *funcIndex, mainUnit flow
 				return false
 			}
 			if call, ok := n.(*ast.CallExpr); ok {
-				if fn, ok := typeutil.Callee(info, call).(*types.Func); ok && fn.Pkg() != nil {
+				if fn, ok := flow.Callee(info, call).(*types.Func); ok && fn.Pkg() != nil {
 					if fn.Pkg().Path() == "github.com/consensys/gnark/logger" && fn.Name() == "Set" {
 						setCall = call
 					}
@@ -834,7 +842,7 @@ func checkLogSinks(p *core.Program, r *core.Report, ix *funcIndex, mainUnit flow
 			usesRepoLogger := false
 			ast.Inspect(setCall, func(n ast.Node) bool {
 				if c, ok := n.(*ast.CallExpr); ok {
-					if fn, ok := typeutil.Callee(info, c).(*types.Func); ok && fn == loggerFn {
+					if fn, ok := flow.Callee(info, c).(*types.Func); ok && fn == loggerFn {
 						usesRepoLogger = true
 					}
 				}
@@ -916,6 +924,13 @@ func isOsVarSSA(v ssa.Value) bool {
 	if ld, ok := v.(*ssa.UnOp); ok {
 		if g, ok := ld.X.(*ssa.Global); ok && g.Pkg != nil && g.Pkg.Pkg.Path() == "os" {
 			return true
+		}
+		if g, ok := ld.X.(*ssa.Global); ok {
+			if v, ok := g.Object().(*types.Var); ok {
+				if t, ok := flow.SeamTarget(v).(*types.Var); ok && t.Pkg() != nil && t.Pkg().Path() == "os" {
+					return true
+				}
+			}
 		}
 	}
 	return false
